@@ -228,6 +228,21 @@ func (e *specEnv) ident(name string) Value {
 		return Value{T: boolT, Term: c.False()}
 	}
 	if strings.HasPrefix(name, "$") {
+		// $i_2: role variable of the enclosing loop with ordinal 2
+		if k := strings.LastIndex(name, "_"); k > 0 {
+			var ord int
+			if _, err := fmt.Sscanf(name[k+1:], "%d", &ord); err == nil {
+				if lp := x.activeLoops[ord]; lp != nil {
+					if v, ok := lp.role[name[:k]]; ok {
+						return v
+					}
+					if o, ok := lp.roleVars[name[:k]]; ok {
+						return x.readVar(e.s, o)
+					}
+				}
+				e.fail("loop %d is not active here (%s)", ord, name)
+			}
+		}
 		if e.lp != nil {
 			if v, ok := e.lp.role[name]; ok {
 				return v
